@@ -3,6 +3,7 @@ package engine
 import (
 	"fmt"
 	"go/types"
+	"math/big"
 	"runtime/debug"
 	"sort"
 	"strings"
@@ -23,6 +24,7 @@ type Obligation struct {
 	Clause   string // source of the clause
 	Bounded  string
 	Probe    bool // vacuity probe (expected sat), not counted as proof obligation
+	Refine   []*Term
 	Contract *Contract
 }
 
@@ -84,6 +86,13 @@ func (p *Program) VerifyFunc(c *Contract) (res *FuncResult) {
 	ex := &Exec{P: p, Mode: modeOf(c), Fn: fn, C: c, Funs: map[string]string{}, MaxStep: 400000,
 		siteCnt: map[string]int{}, Inlined: map[string]bool{}, UsedContracts: map[string]bool{}, UsedAssumed: map[string]bool{}}
 	res.Exec = ex
+	if c.Options["nlmul"] == "uf" {
+		NLMulUF = true
+		NLMulComm = nil
+		nlSeen = map[string]bool{}
+		ex.Funs["0uf_umul"] = "(declare-fun umul (Int Int) Int)"
+		defer func() { NLMulUF = false }()
+	}
 	defer func() {
 		if r := recover(); r != nil {
 			if re, ok := r.(rejectErr); ok {
@@ -156,9 +165,12 @@ func (p *Program) VerifyFunc(c *Contract) (res *FuncResult) {
 		}
 		q.Asserts = append(q.Asserts, ex.Assumes...)
 		q.Asserts = append(q.Asserts, ex.Axioms...)
+		if NLMulUF {
+			q.Asserts = append(q.Asserts, NLMulComm...)
+		}
 		q.Asserts = append(q.Asserts, asserts...)
 		o := &Obligation{Func: c.Key, Short: name, Name: c.Key + "#" + name, Tags: tags, Expect: expect, Query: q,
-			Mode: c.Mode, Inputs: ex.Inputs, Clause: clause, Bounded: c.Bounded, Contract: c}
+			Mode: c.Mode, Inputs: ex.Inputs, Clause: clause, Bounded: c.Bounded, Contract: c, Refine: ex.Refine}
 		if o.Mode == "" {
 			o.Mode = "int"
 		}
@@ -332,7 +344,11 @@ func (p *Program) VerifyFunc(c *Contract) (res *FuncResult) {
 		for _, e := range normal {
 			g := e.St.Ghost["metered"]
 			if g != nil && !(g.IsConst() && g.Val.Sign() == 0) {
-				alts = append(alts, And(pcOf(e), Neq(g, IntC(0))))
+				zero := IntC(0)
+				if g.S.K == SBV {
+					zero = BVC(big.NewInt(0), g.S.W)
+				}
+				alts = append(alts, And(pcOf(e), Neq(g, zero)))
 			}
 		}
 		if len(alts) > 0 {
@@ -387,7 +403,11 @@ func declaresGhost(c *Contract, name string) bool {
 }
 
 func (ex *Exec) initGhosts(st *State, c *Contract) {
-	st.Ghost["metered"] = IntC(0)
+	if ex.Mode == ModeBV {
+		st.Ghost["metered"] = BVC(big.NewInt(0), 64)
+	} else {
+		st.Ghost["metered"] = IntC(0)
+	}
 	if g, ok := c.Options["ghost"]; ok {
 		for _, n := range strings.Fields(strings.ReplaceAll(g, ",", " ")) {
 			st.Ghost[n] = IntC(0)
